@@ -22,7 +22,7 @@ Qed.
 Theorem new_packet_shape c t pad cb fsize old d : ogg_f_new_packet c t pad cb fsize old = Ok d ->
   vc_valid t = true /\ vc_fits32 t = true /\
   match c with
-  | OFlac => zlen (vc_render t) < U32 /\ d = ztake 1 old ++ be_encode 3 (zlen (vc_render t)) ++ vc_render t
+  | OFlac => zlen (vc_render t) <= MAXSZ /\ d = ztake 1 old ++ be_encode 3 (zlen (vc_render t)) ++ vc_render t
   | _ => (c = OOpus /\ pad <> [] /\ d = ogg_vdata c t ++ pad) \/
          ((c <> OOpus \/ pad = []) /\
           d = ogg_vdata c t ++ zeros (_get_padding cb (zlen old - zlen (ogg_vdata c t)) (fsize - zlen old)))
@@ -38,7 +38,7 @@ Proof.
     + left. split; [reflexivity|]. split; [discriminate|]. inversion H. reflexivity.
   - right. split; [left; discriminate|]. inversion H. reflexivity.
   - right. split; [left; discriminate|]. inversion H. reflexivity.
-  - destruct (U32 <=? zlen (vc_render t)) eqn:E; [discriminate|]. inversion H. split; [lia|reflexivity].
+  - destruct (MAXSZ <? zlen (vc_render t)) eqn:E; [discriminate|]. inversion H. split; [lia|reflexivity].
 Qed.
 
 Lemma all_zero_zeros n : ogg_f_all_zero (zeros n) = true.
@@ -72,7 +72,7 @@ Qed.
    them is the callback's answer *)
 Theorem new_packet_decode c t pad cb fsize old d : ogg_f_new_packet c t pad cb fsize old = Ok d ->
   (c = OOpus -> pad = [] \/ exists b r, pad = b :: r /\ ogg_f_odd b = true) ->
-  (c = OFlac -> (exists h r, old = h :: r /\ h mod 128 = 4) /\ zlen (vc_render t) <= MAXSZ) ->
+  (c = OFlac -> exists h r, old = h :: r /\ h mod 128 = 4) ->
   ogg_f_decode c d =
   Ok (t, match c with
          | OFlac => -1
@@ -100,7 +100,7 @@ Proof.
     rewrite decode_vdata by (try discriminate; assumption). rewrite all_zero_zeros, zlen_zeros_max. destruct pad; reflexivity.
   - destruct S as [(X & _)|(_ & ->)]; [discriminate|].
     rewrite decode_vdata by (try discriminate; assumption). rewrite all_zero_zeros, zlen_zeros_max. destruct pad; reflexivity.
-  - destruct S as (L & ->). destruct (Hfl eq_refl) as ((h & r & -> & Hh) & Hm).
+  - destruct S as (Hm & ->). destruct (Hfl eq_refl) as (h & r & -> & Hh).
     pose proof (vc_valid_no_eq t V) as K.
     destruct (be_encode3_shape (zlen (vc_render t))) as (s1 & s2 & s3 & E3 & B1 & B2 & B3).
     change (ztake 1 (h :: r)) with [h]. rewrite E3. cbn [app]. unfold ogg_f_decode. rewrite Hh. cbn [Z.eqb negb].
@@ -114,7 +114,7 @@ Qed.
 Theorem delete_packet_decode c vendor pad fsize old d :
   ogg_f_new_packet c (mkVC vendor []) pad (Some (fun _ _ => 0)) fsize old = Ok d ->
   (c = OOpus -> pad = [] \/ exists b r, pad = b :: r /\ ogg_f_odd b = true) ->
-  (c = OFlac -> (exists h r, old = h :: r /\ h mod 128 = 4) /\ zlen (vc_render (mkVC vendor [])) <= MAXSZ) ->
+  (c = OFlac -> exists h r, old = h :: r /\ h mod 128 = 4) ->
   ogg_f_decode c d = Ok (mkVC vendor [], match c with
                                          | OFlac => -1
                                          | _ => match c, pad with OOpus, _ :: _ => -1 | _, _ => 0 end end).
